@@ -158,13 +158,14 @@ Definition may_write (fnm : string) (fl : list (string * string)) (pn : string) 
   || ((String.eqb fnm "transformation.orthogonalize_left" || String.eqb fnm "transformation.orthogonalize_right")
       && flag_is fl "inplace" "True" && String.eqb pn "Y")
   || (is_method fnm && String.eqb pn "self").
-(* the result may be / reference (part of) parameter [pn] *)
+(* the result may be / reference (part of) parameter [pn].  core_stab may hand back G only in the variant in which its
+   threshold test [v_max <= thr] holds (the translator specialises the function on that test, like on a boolean flag) *)
 Definition may_return (fnm : string) (fl : list (string * string)) (pn : string) : bool :=
   ((String.eqb fnm "transformation.orthogonalize_left" || String.eqb fnm "transformation.orthogonalize_right")
       && flag_is fl "inplace" "True" && String.eqb pn "Y")
   || (String.eqb fnm "grid.grid_prep_opt" && String.eqb pn "opt")
   || (String.eqb fnm "grid.grid_prep_opts" && (String.eqb pn "a" || String.eqb pn "b" || String.eqb pn "n"))
-  || (String.eqb fnm "core.core_stab" && String.eqb pn "G")
+  || (String.eqb fnm "core.core_stab" && flag_is fl "v_max <= thr" "True" && String.eqb pn "G")
   || (is_method fnm && String.eqb pn "self").
 
 (* objects reachable from parameter [pn] may be stored into a written (hence exempt) parameter *)
